@@ -265,8 +265,10 @@ def d3(chk, prog):
     for wkind, has_probes, has_cn1 in itertools.product(["positive", "zero", "mixed"], [True, False], [True, False]):
         W.reset()
         n = 3
-        s = [Term.sym(f"s{i}") for i in range(n)]
-        e = [Term.sym(f"e{i}") for i in range(n)]
+        # the rows of a run are sorted and do not nest (they are segments of one chromosome): s0 < e0 <= s1 < e1 <= s2 < e2, stated as
+        # separated intervals, so that "the last end" may equally be written as the largest end (and the first start as the smallest)
+        s = [Term.sym(f"s{i}", 100 * i, 100 * i + 40) for i in range(n)]
+        e = [Term.sym(f"e{i}", 100 * i + 50, 100 * i + 90) for i in range(n)]
         v = [Term.sym(f"v{i}") for i in range(n)]
         d = [Term.sym(f"d{i}") for i in range(n)]
         b = [Term.sym(f"b{i}") for i in range(n)]
